@@ -170,6 +170,20 @@ theorem mandatory_edge_shape (e : EInfo) (h : e.isMandatory = true) :
   simp only [EInfo.isMandatory, Bool.and_eq_true, Bool.not_eq_true', beq_eq_false_iff_ne] at h
   exact ⟨h.1.2, h.2, h.1.1⟩
 
+/-- Mandatory edges, locally: a context whose active vertex has no neighbour along a non-optional
+edge produces no context (`EdgeExpander`), and a fold reported `FoldedMandatory` with no element
+fails one of its count filters (contrapositive of `fold_requires_at_least_one_sound`). -/
+theorem mandatory_edge_no_neighbour_no_context (c : Ctx) (v : VertexId) (h : c.active = some v) :
+    expandOne c [] false = [] := by
+  simp [expandOne, h]
+
+theorem mandatory_fold_empty_fails_a_filter (rx : RegexEngine) (args : List (Name × Value))
+    (post : List IRFilter) (h : foldRequiresAtLeastOne args post = .ok true) :
+    ¬ ∀ f ∈ post, StaticFilterPasses rx args f (.uint64 0) := by
+  intro hf
+  have := foldRequiresAtLeastOne_sound rx args post 0 h hf
+  simp at this
+
 /-! ### a look-ahead that is binding where it must not be (finding F-C04-1)
 
 `NeighborInfo::make_non_folded_edge_info` inherits `within_optional_scope` from the current hint
@@ -262,6 +276,8 @@ end TF.C04
 #print axioms TF.C04.deep_recursion_non_binding
 #print axioms TF.C04.optional_fold_lookahead_non_binding
 #print axioms TF.C04.mandatory_edge_shape
+#print axioms TF.C04.mandatory_edge_no_neighbour_no_context
+#print axioms TF.C04.mandatory_fold_empty_fails_a_filter
 #print axioms TF.C04.lookahead_through_optional_reports_binding
 #print axioms TF.C04.prune_static_invariant_partial
 #print axioms TF.C04.rejected_vertex_never_survives
